@@ -372,7 +372,7 @@ impl Prop for C11 {
         true
     }
     fn random_cases(tier: Tier) -> u64 {
-        tier.pick(80_000, 1_500_000)
+        tier.pick(80_000, 8_000_000)
     }
     fn strategy(tier: Tier) -> BoxedStrategy<Case> {
         let maxtok = tier.pick(40usize, 120);
